@@ -481,6 +481,7 @@ func main() {
 	for i, a := range os.Args {
 		if a == "-worker" {
 			debug.SetGCPercent(800)
+			debug.SetMemoryLimit(2 << 30) // one of up to 16 worker processes: the collector works harder near 2 GiB instead of letting the heap grow to 9x the live data
 			var err error
 			scratch, err = os.MkdirTemp("/dev/shm", "verif-c20w-")
 			if err != nil {
